@@ -410,11 +410,11 @@ def check_C01(tier, seed):
 
 
 def mc_sess_check(pid, tier, seed, module, rule, extra_sessions=None, keep=None, timeout=3000, chunk=None,
-                  assumptions=None, cfg=None):
+                  assumptions=None, cfg=None, pre_stages=None):
     t0 = time.time()
     st1, sess = tlc_sessions(pid, module, cfg or "%s_%s.cfg" % (os.path.splitext(module)[0], tier),
                              timeout=timeout, keep=keep)
-    stages = [st1, validate_sessions(pid, "mc", sess, exhaustive=True, timeout=timeout, chunk=chunk)]
+    stages = (pre_stages or []) + [st1, validate_sessions(pid, "mc", sess, exhaustive=True, timeout=timeout, chunk=chunk)]
     if extra_sessions:
         for name, ss in extra_sessions:
             stages.append(validate_sessions(pid, name, ss, timeout=timeout))
@@ -454,7 +454,9 @@ RULES = {
  "C11": "every two-line program (line 1: one print item of every kind with each separator; line 2: print lists of 1-2 "
         "items x separators x trailing separator, an INPUT, a runtime error) followed by a direct PRINT using POS and a "
         "zone; items: strings of 0/2/14/15 characters, a non-ASCII and a multi-line string, Integers, Singles, Doubles, "
-        "TAB(+/-/0), SPC, POS",
+        "TAB(+/-/0), SPC, POS; number formatting: Single and Double values n/2^e over a grid of mantissas and exponents are "
+        "printed by the interpreter and checked for shape (sign slot, trailing blank), for the specified text where the "
+        "decimal expansion is short, for reading back to the same value of the type and for minimality of the digit count",
  "C17": "every INPUT form (no prompt / prompt / leading comma; 1-3 variables of each type; an array element whose "
         "subscript is an earlier variable of the list), inside a subroutine inside a FOR, x every reply string over "
         "the reply alphabet up to the bound plus hand-picked replies; rejected replies are followed by a fixed reply",
@@ -463,8 +465,12 @@ RULES = {
 
 def prog_check(pid):
     def chk(tier, seed):
+        pre = None
+        if pid == "C11":
+            # number formatting: values chosen by TLC, printed by the interpreter (shape, text, read-back, minimality)
+            pre = [tlc_replay_stage("C11", "MC_C11F.tla", "MC_C11F_%s.cfg" % tier, timeout=3000)]
         return mc_sess_check(pid, tier, seed, "MC_Prog.tla", RULES[pid], cfg="MC_Prog_%s_%s.cfg" % (pid, tier),
-                             keep=lambda d: not d.get("oom"))
+                             keep=lambda d: not d.get("oom"), pre_stages=pre)
     return chk
 
 
@@ -832,14 +838,23 @@ def check_C16(tier, seed):
                 d2["id"] = "%s~%s" % (s_["id"], kind)
                 sess.append(d2)
     st3 = validate_sessions("C16", "spelled", sess, timeout=6000)
-    return finish("C16", tier, seed, "model_checking", [st1, st14, st2, st3], t0,
+    # 4. letter case over every short string of the lexical alphabet (the C05 enumeration): the upper-case
+    #    spelling must list and parse alike
+    os.environ["VERIF_LEX_CASECHECK"] = "1"
+    try:
+        st4 = tlc_replay_stage("C16", "MC_C05.tla", "MC_C05_%s_b.cfg" % tier, timeout=6000)
+    finally:
+        os.environ.pop("VERIF_LEX_CASECHECK", None)
+    return finish("C16", tier, seed, "model_checking", [st1, st14, st2, st3, st4], t0,
                   rule="the canonical lines of sampled programs (bounded grammar, RENUM forms, seeded random programs) are "
                        "read by the model scanner (BasicLex); MC_C16 derives five variants per line (lower case, mixed case, "
                        "optional blanks removed wherever the model still sees the same words, aliases ? ' GO TO GO SUB =< => "
                        "< > and LET dropped, all combined) and checks SpellingSound on the model; each variant is fed to the "
                        "real lexer / lister / parser (lists as the model says, parses like the canonical text); every session "
                        "is then re-typed in each spelling and trace-validated against the same AST-level specification (runs "
-                       "and lists identically); non-trivial = variants whose text differs from the canonical one",
+                       "and lists identically); finally every string of the C05 enumeration (reduced alphabet with both cases of the "
+                       "exponent letters) is compared with its upper-case spelling (same listing, same parse); "
+                       "non-trivial = variants whose text differs from the canonical one",
                   assumptions=ASSUME_SESS)
 
 
